@@ -15,7 +15,17 @@ import (
 // project, and inherits its relative paths without redeclaring them. Base and derived service both
 // carry "included project directory joined with the value" (or, for a base file in yet another
 // directory, that file's directory).
+// composedSink, when set, receives the violations of runComposed instead of the shard (witness replay).
+var composedSink func(attrs map[string]string, what string)
+
 func runComposed(s *core.Shard, offset int, only string) {
+	violation := func(attrs map[string]string, what string, files map[string]any) {
+		if composedSink != nil {
+			composedSink(attrs, what)
+			return
+		}
+		s.Violation(attrs, what, files)
+	}
 	type cc struct {
 		id      string
 		incDir  string // directory of the included project, relative to proj
@@ -28,6 +38,10 @@ func runComposed(s *core.Shard, offset int, only string) {
 		{"include+extends-other-file-other-dir", "sub", false, "lib/base.yaml"},
 		{"include-twice+same-file-extends", "mid/sub", true, ""},
 		{"include-sibling-dir+same-file-extends", "../sibling", false, ""},
+		// directory names that look like something else once they stand at the head of a relative path
+		{"include-dir-named-like-home", "~shared", false, ""},
+		{"include-dir-named-like-a-git-host", "github.com/acme/app", false, ""},
+		{"include+extends-file-in-dir-named-like-home", "sub", false, "~lib/base.yaml"},
 	}
 	for i, c := range cases {
 		if only != "" {
@@ -73,7 +87,7 @@ func runComposed(s *core.Shard, offset int, only string) {
 			continue
 		}
 		if res.Err != nil {
-			s.Violation(map[string]string{"kind": "load-failed", "part": "composed", "scenario": c.id}, fmt.Sprintf("composed/%s does not load: %v", c.id, res.Err), rf)
+			violation(map[string]string{"kind": "load-failed", "part": "composed", "scenario": c.id}, fmt.Sprintf("composed/%s does not load: %v", c.id, res.Err), rf)
 			continue
 		}
 		want := filepath.Clean(filepath.Join(dir, baseDir))
@@ -83,7 +97,7 @@ func runComposed(s *core.Shard, offset int, only string) {
 				if name == "base" && c.extFile != "" {
 					continue // the base lives in a file that is only extended from
 				}
-				s.Violation(map[string]string{"kind": "wrong-path", "part": "composed", "scenario": c.id}, fmt.Sprintf("composed/%s: service %s missing", c.id, name), rf)
+				violation(map[string]string{"kind": "wrong-path", "part": "composed", "scenario": c.id}, fmt.Sprintf("composed/%s: service %s missing", c.id, name), rf)
 				continue
 			}
 			got := composedPaths(sv)
@@ -94,7 +108,7 @@ func runComposed(s *core.Shard, offset int, only string) {
 			for attr, w := range exp {
 				s.Add("composed_paths_checked", 1)
 				if got[attr] != w {
-					s.Violation(map[string]string{"kind": "wrong-path", "part": "composed", "attribute": attr, "scenario": c.id, "service": name},
+					violation(map[string]string{"kind": "wrong-path", "part": "composed", "attribute": attr, "scenario": c.id, "service": name},
 						fmt.Sprintf("composed/%s: %s of service %s is %q, expected %q (the directory of the file that declares it, joined with the value)", c.id, attr, name, got[attr], w), rf)
 				}
 			}
